@@ -540,6 +540,7 @@ type VCSet struct {
 	Obs    []*Obligation
 	anc    map[int]map[int]bool
 	byID   map[int]*BlockDef
+	DomUnits bool // assert the facts of dominating blocks unconditionally (helps some goals, hurts others)
 	ancOnce sync.Once
 }
 
@@ -609,9 +610,11 @@ func (vs *VCSet) queryText(obs []*Obligation) string {
 			}
 		}
 	}
-	for _, b := range vs.Blocks {
-		if common[b.ID] == len(obs) {
-			sb.WriteString(fmt.Sprintf("(assert X$%d)\n", b.ID))
+	if vs.DomUnits {
+		for _, b := range vs.Blocks {
+			if common[b.ID] == len(obs) {
+				sb.WriteString(fmt.Sprintf("(assert X$%d)\n", b.ID))
+			}
 		}
 	}
 	if len(obs) == 1 {
